@@ -19,7 +19,7 @@ RULE = ('1-5 always-on ledger processes with constant or invocation-indexed time
         'one interval truncated by forced completion or deferred across a call boundary; distinct = distinct spec')
 PLAN = {'quick': {'n': 20000, 'min_cases': 1500}, 'thorough': {'n': 250000, 'min_cases': 30000}}
 REQUIRED_ORACLES = ['non_overlapping', 'contiguous', 'argument_is_interval', 'requested_or_truncated', 'sum_is_elapsed',
-                    'clock_accumulator', 'nothing_pending']
+                    'clock_accumulator', 'nothing_pending', 'asked_for_each_interval']
 ANCHORS = ['vivarium.core.engine:Engine.run_for', 'vivarium.core.engine:Engine.update',
            'vivarium.core.engine:Engine._check_complete', 'vivarium.core.process:Process.calculate_timestep']
 ASSUMPTIONS = ['always-on processes whose timestep answer depends only on their own invocation index',
@@ -129,6 +129,20 @@ def run(spec):
                 V.check('non_overlapping', total <= exact(e.global_time, grid) - t0,
                         lambda: ('timesteps handed to conditional process %d sum to %r, more than the %r elapsed' % (
                             pid, float(total), float(exact(e.global_time, grid) - t0)),))
+            if not p.get('parallel') and p['ts']['kind'] != 'param':
+                # (timestep kind param keeps the default calculate_timestep, which is not observed)
+                # the timestep of every interval the engine evaluates is one the process was asked for: between two
+                # evaluations of the update condition the process's calculate_timestep is called (an answer that
+                # could not be used before a call's end time is kept for the next call, but used once)
+                fresh = False
+                for ev in m.events:
+                    if ev[0] == 'poll' and ev[1] == pid:
+                        fresh = True
+                    elif ev[0] == 'cond' and ev[1] == pid:
+                        V.check('asked_for_each_interval', fresh,
+                                lambda: ('process %d: update condition evaluated at t=%r for an interval the process was not '
+                                         'asked a timestep for (the previous answer was used again)' % (pid, ev[2]),))
+                        fresh = False
             continue
         for n, (tok, at) in enumerate(toks):
             ts = exact(tok[2], grid)
